@@ -19,6 +19,9 @@ From CF Require Import C12.Proofs_write.
 From CF Require Import C12.Proofs_flash.
 From CF Require Import C12.Proofs.
 From CF Require Import C12.Proofs_plan.
+From CF Require Import C12.Session.
+From CF Require Import C12.Proofs_override.
+From CF Require Import C12.Proofs_session.
 Open Scope Z_scope.
 
 (* Success means the image is in flash, byte for byte, at start * page_size — provided positive
@@ -148,3 +151,66 @@ Theorem C12_write_retry_bounded_then_abort : forall T sp override image q scr ou
    exists tr0 r d, tr = tr0 ++ [(255 :: t_id T :: 24 :: r, d)]).
 Proof. exact failed_write_aborts. Qed.
 Print Assumptions C12_write_retry_bounded_then_abort.
+
+(* ------------------------------------------------------------------ round 2: what is flashed where *)
+
+(* A negative start / override page (any geometry values, any script): either the image is refused with
+   nothing sent, or the run raises struct.error; in both cases no flash-write command was sent — only
+   buffer loads — and the flash of any target is unchanged.  (Pages >= 65536 and pages that leave fewer
+   than ceil(len/ps) pages before the end of the flash are refused: C12_too_big_refused_before_write.) *)
+Theorem C12_bad_override_raises_before_write : forall addr ps bp fp sp override image q scr out q' scr' tr,
+  1 <= zlen image -> 1 <= ps -> eff_start sp override < 0 ->
+  internal_flash addr ps bp fp sp override image q scr = (out, q', scr', tr) ->
+  ((out = Refused /\ tr = []) \/ out = Raised StructError) /\
+  only_loads tr /\ forall T, t_flash (deliver T tr) = t_flash T.
+Proof. exact bad_override. Qed.
+Print Assumptions C12_bad_override_raises_before_write.
+
+(* Cloader._update_info decodes the info packet [tid, 0x10, page_size, buffer_pages, flash_pages,
+   start_page (16-bit little-endian each), 12 cpu-id bytes, optional protocol version ...] exactly. *)
+Theorem C12_info_geometry_decoded_exactly : forall tid ps bp fp sp cpuid rest,
+  0 <= ps < 65536 -> 0 <= bp < 65536 -> 0 <= fp < 65536 -> 0 <= sp < 65536 -> length cpuid = 12%nat ->
+  exists i, parse_info tid (info_packet tid ps bp fp sp cpuid rest) = POk i /\
+            i_ps i = ps /\ i_bp i = bp /\ i_fp i = fp /\ i_sp i = sp /\ i_cpuid i = cpuid /\
+            i_pv i = (match rest with v :: _ => Some v | [] => None end).
+Proof. exact parse_info_exact. Qed.
+Print Assumptions C12_info_geometry_decoded_exactly.
+
+(* The geometry _update_info stores is the decoding of a packet it actually received for that target
+   (whatever else arrives, whatever times out), and it asks at most six times within its 10 s. *)
+Theorem C12_update_info_reports_a_received_packet : forall tid pv_prev evs i m fs rest,
+  update_info tid pv_prev evs = (UTrue i m, fs, rest) ->
+  exists p, In (Some p) evs /\ parse_info tid p = POk i.
+Proof. exact update_info_from_packet. Qed.
+Print Assumptions C12_update_info_reports_a_received_packet.
+
+Theorem C12_update_info_requests_bounded : forall tid pv_prev evs r fs rest,
+  update_info tid pv_prev evs = (r, fs, rest) ->
+  (1 <= length (filter (fun f => zlist_eqb f (get_info_frame tid)) fs) <= 6)%nat.
+Proof. exact update_info_requests. Qed.
+Print Assumptions C12_update_info_requests_bounded.
+
+(* The nRF51 bootloader+softdevice override page  flash_pages - len // page_size : an image that is a
+   whole number of pages fits exactly and ends at the end of the flash; any other length fails the size
+   check (refused before anything of it is written); the page is negative iff the image has more pages
+   than the flash (then C12_bad_override_raises_before_write applies). *)
+Theorem C12_sdbl_override_fits_or_refused : forall fp ps len, 1 <= ps -> 0 <= len ->
+  let page := sdbl_page fp ps len in
+  (len mod ps = 0 -> len = (fp - page) * ps) /\
+  (len mod ps <> 0 -> (fp - page) * ps < len) /\
+  (0 <= page <-> len / ps <= fp).
+Proof. exact sdbl_fits_or_refused. Qed.
+Print Assumptions C12_sdbl_override_fits_or_refused.
+
+(* The whole branch (erase the first firmware page, then flash the image at the override page): if it
+   reports success (honest acknowledgements), the image lies byte for byte in the last len/ps pages. *)
+Theorem C12_sdbl_image_at_flash_end : forall T sp sd q scr q' scr' tr,
+  let ps := t_ps T in
+  let page := sdbl_page (t_fp T) ps (zlen sd) in
+  t_id T = NRF51 -> run_pre T sp (repeat 255 (Z.to_nat ps)) -> 1 <= zlen sd ->
+  Forall (att_honest NRF51) scr ->
+  flash_sdbl ps (t_bp T) (t_fp T) sp sd q scr = (Done, q', scr', tr) ->
+  0 <= page /\ zlen sd mod ps = 0 /\ page * ps + zlen sd = t_fp T * ps /\
+  zslice (t_flash (deliver T tr)) (page * ps) (zlen sd) = sd.
+Proof. exact sdbl_exact. Qed.
+Print Assumptions C12_sdbl_image_at_flash_end.
